@@ -135,6 +135,41 @@ pub fn sign<S: MlDsa>(seed: u64, nfull: usize, nfactor: usize, allctx: bool, out
     }
 }
 
+/// Rare-event hunt: sign many messages with the attempt hook on; every attempt log is judged by the
+/// cheap SignAttempts rule, and the rarest signatures (hint rejections, boundary norms, hint weight
+/// omega, most attempts) are emitted for full recomputation by the TLA+ Sign state machine.
+pub fn hunt<S: MlDsa>(seed: u64, nsign: usize, nfull: usize, out: &mut Out) {
+    let mut p = Prng::new(seed, 0x0310 + S::SET as u64);
+    let (_pk, sk) = S::keygen_seed(&p.arr32());
+    let skb = S::sk_bytes(&sk);
+    let (e1, e2) = (S::GAMMA1 - S::beta(), S::GAMMA2 - S::beta());
+    let mut rare: Vec<(i64, Vec<u8>, [u8; 32], Vec<u8>, usize)> = vec![];
+    for i in 0..nsign {
+        let mp = p.bytes(8 + (i % 40));
+        let rnd = p.arr32();
+        vh::trace_start();
+        let r = guarded(|| S::internal_sign(&sk, &mp, rnd));
+        let evs: Vec<[i64; 8]> = vh::trace_take().iter().filter(|e| e.0 == "sign_attempt").map(|e| e.1).collect();
+        let Ok(sig) = r else { let (loc, msg) = r.err().unwrap(); out.ev(json!({"ev": "Panic", "call": "internal_sign", "loc": loc, "msg": msg})); continue };
+        let att: Vec<Value> = evs.iter().map(|a| json!([a[0], a[1], a[2], a[3], a[4], a[5]])).collect();
+        out.ev(json!({"ev": "SignAttempts", "set": S::SET, "attempts": att}));
+        // rarity score
+        let mut score = evs.len() as i64;
+        for a in evs.iter() {
+            if a[5] == 2 { score += 1000; }
+            if a[1] == (e1 - 1) as i64 || a[1] == e1 as i64 { score += 300; }
+            if a[2] == (e2 - 1) as i64 || a[2] == e2 as i64 { score += 300; }
+            if a[4] == S::OMEGA as i64 || a[4] == S::OMEGA as i64 + 1 { score += 300; }
+            if a[3] == S::GAMMA2 as i64 - 1 || a[3] == S::GAMMA2 as i64 { score += 300; }
+        }
+        rare.push((score, mp, rnd, sig, evs.len()));
+    }
+    rare.sort_by(|a, b| b.0.cmp(&a.0));
+    for (_, mp, rnd, sig, n) in rare.into_iter().take(nfull) {
+        out.ev(json!({"ev": "SignInternal", "hunted": true, "sk": jbytes(&skb), "mp": jbytes(&mp), "rnd": jbytes(&rnd), "sig": jbytes(&sig), "attempts": n}));
+    }
+}
+
 /// events from ACVP sigGen vectors run through the library (the driver passes a pre-digested file)
 pub fn acvp_sign<S: MlDsa>(path: &str, limit: usize, offset: usize, out: &mut Out) {
     let v: Value = serde_json::from_str(&std::fs::read_to_string(path).expect("acvp file")).unwrap();
@@ -375,6 +410,8 @@ pub fn run(sub: &str, a: &Args) {
             "sign" => {
                 let (nf, nfa, all) = (a.u("nfull", 2) as usize, a.u("nfactor", 28) as usize, a.u("allctx", 0) == 1);
                 for_set!(set, sign(seed, nf, nfa, all, &mut out));
+                let (nh, nhf) = (a.u("nhunt", 0) as usize, a.u("nhuntfull", 2) as usize);
+                if nh > 0 { for_set!(set, hunt(seed, nh, nhf, &mut out)); }
                 let acvp = a.s("acvp", "");
                 if !acvp.is_empty() { let (lim, off) = (a.u("nacvp", 1) as usize, a.u("acvpoff", 0) as usize); for_set!(set, acvp_sign(&acvp, lim, off, &mut out)); }
             }
